@@ -243,10 +243,12 @@ def r6(ctx):
 
     def table(h, rows, tag):
         hn = [n for n in g.nodes_of(h) if n.kind == "handler"][0]
-        var = h.name
+        # one exception travels through the handlers of one run (an inner `raise` hands the same object to the outer
+        # clause): every handler variable's errno is the same quantity
+        hvars = [x.name for x in hs if x.name]
 
         def atom_of(e):
-            if var and norm(e) in ("%s.args[0]" % var, "%s.errno" % var):
+            if any(norm(e) in ("%s.args[0]" % var, "%s.errno" % var) for var in hvars):
                 return "ERRNO"
             return None
         for err, want in rows:
@@ -262,7 +264,7 @@ def r6(ctx):
     table(inner[0], [("EPERM", "pid"), ("ESRCH", "stale"), ("EINVAL", "propagate")], "kill() failed")
     table(outer[0], [("ENOENT", "stale"), ("EACCES", "propagate"), ("EISDIR", "propagate")], "open() failed")
     for h in verr:
-        okk = len(h.body) == 1 and isinstance(h.body[0], ast.Return) and h.body[0].value is None
+        okk = len(h.body) == 1 and isinstance(h.body[0], ast.Return) and (h.body[0].value is None or const(h.body[0].value, NO) is None)
         ctx.check("C17.R6", okk, key(f, "unparsable-stale"), site(f, h), "an unparsable pid file is not treated as stale", "ValueError -> stale")
     # no fname -> nothing to validate
     def nofname(e):
